@@ -28,6 +28,9 @@ THEOREMS = [
     "exec_refines_spec_rowpath", "exec_refines_spec_rowpath_sum", "exec_refines_spec_rowpath_sum_regression",
     "exec_refines_spec_chunkpath_sum", "exec_refines_spec_chunkpath_sum_regression",
     "exec_refines_spec_count_distinct", "exec_refines_spec_count_distinct_regression",
+    # correlated scalar aggregate subqueries: laws of the nested-iteration operator, the decorrelated plan refuted twice
+    "scalar_subquery_empty", "scalar_group_subquery_empty", "apply_scalar_agg_keeps_outer_rows",
+    "decorr_scalar_agg_count_bug_unsound", "decorr_scalar_agg_duplicate_rows_unsound",
     "exec_refines_spec_hashjoin", "exec_refines_spec_hashjoin_null_key_regression", "exec_refines_spec_hashjoin_int_width_unsound",
     # shared with C11 (imported module RlModel.Thm.C11 is audited by ./check C11)
 ]
@@ -118,13 +121,14 @@ def new_stats():
     return {"evaluations": 0, "shapes": {}, "join_kinds": {}, "aggs": {}, "impl_status": {}, "nonempty": 0,
             "model_vs_impl": {"compared": 0, "disagree": 0}, "impl_vs_oracle": {"compared": 0, "disagree": 0},
             "model_vs_oracle": {"compared": 0, "disagree": 0}, "l1_of_optimised_vs_l1_of_query": {"compared": 0, "disagree": 0},
-            "tags": {}, "distinct": set(), "physical_ops": {}, "order_sensitive_skipped": 0, "engines": {}, "limit_unordered": 0, "chunks_per_table": {}, "rows_per_table": {}, "disk_disabled_after_timeouts": False}
+            "tags": {}, "distinct": set(), "physical_ops": {}, "order_sensitive_skipped": 0, "engines": {}, "limit_unordered": 0, "scalar_sub": 0, "scalar_sub_shapes": {}, "scalar_sub_dup_outer": 0, "chunks_per_table": {}, "rows_per_table": {}, "disk_disabled_after_timeouts": False}
 
 
 def neutralise_limits(plan):
     """the optimised plan with every `(limit n off` turned into `(limit null 0` (L2 of it = the full
     answer the limited one must be drawn from)"""
-    return re.sub(r"\(limit \d+ \d+ ", "(limit null 0 ", plan)
+    plan = re.sub(r"\(limit \d+ \d+ ", "(limit null 0 ", plan)
+    return re.sub(r"\(topn \d+ \d+ ", "(topn null 0 ", plan)
 
 
 def sub_bag(a, b):
@@ -177,7 +181,11 @@ def run_batch(ck, cases_path, stats):
                 runs.append((c, engine, key))
                 r = impl.get(key)
                 plan = r[1] if r and r[1].startswith("(") else "(unplanned)"
-                plans = [c["logical"], plan] + ([neutralise_limits(plan)] if c.get("limit") else [])
+                logical = c["logical"].replace("@MODE@", "sql")
+                plans = [logical, plan] + ([neutralise_limits(plan)] if c.get("limit") else [])
+                if c.get("scalar_sub"):
+                    # counterfactual readings of the correlated scalar subquery (Model/ExecPlan applyAggRows)
+                    plans += [c["logical"].replace("@MODE@", m) for m in ("countbug", "collapse", "both")]
                 fh.write("(case %s (tables %s) (plans %s))\n" % (
                     key, " ".join(table_sexp(t, engine == "disk") for t in c["tables"]), " ".join(plans)))
     rc2, out2 = vlib.sh([vlib.lean_exe("drv_c02")], stdin=open(req).read(), timeout=6000)
@@ -221,6 +229,16 @@ def decide(ck, c, ir, mr, stats, engine="memory"):
     l2full = None
     if limit and len(mr) > 2:
         _, l2full, l1opt, _ = parse_cell(mr[2])
+    variants = None
+    if c.get("scalar_sub"):
+        k0 = 3 if limit else 2
+        if len(mr) >= k0 + 3:
+            variants = {m: canon(parse_cell(mr[k0 + j])[2], ordered) for j, m in enumerate(("countbug", "collapse", "both"))}
+        stats["scalar_sub"] += 1
+        ssk = shape.split(" scalar-sub/")[1].split(" ")[0] if " scalar-sub/" in shape else "?"
+        stats["scalar_sub_shapes"][ssk] = stats["scalar_sub_shapes"].get(ssk, 0) + 1
+        if any(Counter(tuple(r) for ch in c["tables"][0]["chunks"] for r in ch).most_common(1)[0][1] > 1 for _ in [0] if c["tables"][0]["chunks"]):
+            stats["scalar_sub_dup_outer"] += 1
     sens = [t[len("order-sensitive:"):] for t in tags if t.startswith("order-sensitive:")]
     tags = [t for t in tags if not t.startswith("order-sensitive:")]
     O, L1 = canon(orows, ordered), canon(l1rows, ordered)
@@ -311,6 +329,25 @@ def decide(ck, c, ir, mr, stats, engine="memory"):
     # ---- the property fails on the implementation for this input: name the mechanism ------------
     what = "RisingLight and SQLite disagree on `%s`: impl=%s SQLite=%s" % (c["sql"], I[:6], O[:6])
     explained = False
+    if limit and variants is not None:
+        vb = variants["both"]
+        predicted_by_both = len(I) == min(limit[0], max(0, len(vb) - limit[1])) and sub_bag(I, vb)
+    else:
+        predicted_by_both = variants is not None and I == variants["both"] and L2 == I
+    if variants is not None and l2ok and predicted_by_both and not tags:
+        # The decorrelated plan (pushdown-apply-scalar-agg / -group-agg) is predicted exactly: which of its
+        # two mechanisms changes the answer?  `both` without the COUNT-of-padded-row reading = `collapse`,
+        # without the duplicate-collapse reading = `countbug`.
+        sigs = []
+        if variants["both"] != variants["collapse"]:
+            sigs.append("apply-scalar-agg:count-of-padded-row")
+        if variants["both"] != variants["countbug"]:
+            sigs.append("apply-scalar-agg:duplicate-outer-rows")
+        for t in sigs:
+            stats["tags"][t] = stats["tags"].get(t, 0) + 1
+            ck.report(t, what + " [" + t + ": the decorrelated plan, read with the L1 operators, predicts RisingLight's rows exactly]", replay=rep)
+        if sigs:
+            return
     if l2ok and (L2 == I or sens or (limit and len(L2) == len(I))):
         for t in sorted(set(tags) | set(sens)):
             explained = True
@@ -330,7 +367,7 @@ def decide(ck, c, ir, mr, stats, engine="memory"):
 
 
 def run(ck):
-    n = 600 if ck.quick() else 10000
+    n = 560 if ck.quick() else 10000
     bad = vlib.step_lean(ck, "RlModel.Thm.C02", THEOREMS, extra_targets=["drv_c02"])
     ok, log = vlib.step_cargo(ck, ["c02"])
     if not ok:
@@ -369,7 +406,9 @@ def run(ck):
                          "order_sensitive_plans_not_compared_with_model": stats["order_sensitive_skipped"],
                          "engines": stats["engines"],
                          "chunks_per_table (one INSERT = one scan chunk; clustered tables keep the partner rows in one chosen chunk)": dict(sorted(stats["chunks_per_table"].items())),
-                         "rows_per_table": stats["rows_per_table"], "disk_disabled_after_3_timeouts": stats["disk_disabled_after_timeouts"],
+                         "rows_per_table": stats["rows_per_table"],
+                         "correlated_scalar_aggregate_subqueries": {"runs": stats["scalar_sub"], "outer_table_with_duplicate_rows": stats["scalar_sub_dup_outer"],
+                                                                    "agg/form": dict(sorted(stats["scalar_sub_shapes"].items()))}, "disk_disabled_after_3_timeouts": stats["disk_disabled_after_timeouts"],
                          "limit_offset_without_order_by(count+membership only)": stats["limit_unordered"]},
     })
     return ck.finish(level="proof", trusted_base=[
